@@ -884,7 +884,7 @@ static void su_builder(int k) {
 	if (k == 2 || k == 3) { sig_bytes(3, &G.in); G.sig = parse_fixture(&G.in); return; }
 	for (i = 0; i < 3; i++) G.dh[i] = mk_hash(50 + (unsigned)i);
 	if (KSI_TreeBuilder_new(G.ctx, KSI_HASHALG_SHA2_256, &G.tb) != KSI_OK) vf_harness_error("tree builder");
-	for (i = 0; i < 3; i++) if (KSI_TreeBuilder_addDataHash(G.tb, G.dh[i], 0, &G.leaf[i]) != KSI_OK) vf_harness_error("tree leaf");
+	for (i = 0; i < 3; i++) if (KSI_TreeBuilder_addDataHash(G.tb, G.dh[i], k == 4 ? 1 : 0, &G.leaf[i]) != KSI_OK) vf_harness_error("tree leaf");
 	if (KSI_TreeBuilder_close(G.tb) != KSI_OK || G.tb->rootNode == NULL) vf_harness_error("tree close");
 	if (KSI_DataHash_getImprint(G.tb->rootNode->hash, &p, &l) != KSI_OK) vf_harness_error("tree root");
 	G.level = (int)G.tb->rootNode->level;
@@ -925,9 +925,11 @@ static int run_builder(int k) {
 	} else {
 		CK(KSI_TreeLeafHandle_getAggregationChain(G.leaf[1], &c));
 		CK(KSI_SignatureBuilder_openFromSignature(G.sig, &b));
-		CK(KSI_SignatureBuilder_setAggregationChainStartLevel(b, 0));
+		/* k == 4: the leaves sit at level 1, as the block signer does it: start level and root level are the leaf's level (the chain
+		 * whose first link gets the level is then not the first chain element of the signature's stored form) */
+		CK(KSI_SignatureBuilder_setAggregationChainStartLevel(b, k == 4 ? 1 : 0));
 		CK(KSI_SignatureBuilder_appendAggregationChain(b, c));
-		CK(KSI_SignatureBuilder_close(b, 0, &s));
+		CK(KSI_SignatureBuilder_close(b, k == 4 ? 1 : 0, &s));
 	}
 done:
 	fault_off();
@@ -1440,6 +1442,7 @@ static const op_t OPS[] = {
 	{"tree-builder", su_tree, run_tree, 0},
 	{"tree-builder-retry-step", su_tree, run_tree, 1},
 	{"builder-append-chain", su_builder, run_builder, 0},
+	{"builder-append-chain-leaf-level-1", su_builder, run_builder, 4},
 	{"builder-reclose", su_builder, run_builder, 1},
 	{"builder-from-parts", su_builder, run_builder, 2},
 	{"builder-from-parts-retry-close", su_builder, run_builder, 3},
